@@ -34,3 +34,6 @@ func vfBytes(name string, n int) string
 func vfChoiceStr(name string, opts ...string) string
 func vfAllocCap(n int, id string)
 func vfMapOrder(on bool)
+func vfNative() bool
+func vfSharedBegin(objs ...interface{})
+func vfSharedEnd()
